@@ -236,15 +236,29 @@ def c15(chk, thorough):
 def c19(chk, thorough):
     from . import dims
     chk.explanation = (
-        'Decides the unit-independence clause of C19 ("evaluation does not depend on the units of x"): dimensional homogeneity '
-        '(units-of-measure inference, dimensions X^a Y^b solved as a linear system over Q) of cubic_spline_interpolation, '
-        'cubic_spline_predict, interpolate and curve_area: coefficient formulas, piece lookup, area accumulation; curve_area '
-        'returns X*Y. Sentinel tests against MISSING are exempt by construction. NOT decided: interpolation conditions, C2 '
-        'continuity, exactness on lines, additivity of the area, everything about the simplex minimiser.')
+        'Decides, in exact arithmetic, the clauses of C19 that are algebraic relations between statements. (DIM) unit independence: '
+        'dimensional homogeneity (units-of-measure inference, dimensions X^a Y^b solved over Q) of cubic_spline_interpolation, '
+        'cubic_spline_predict, interpolate and curve_area. (SP) natural spline: every array store is read as a rational function '
+        'of symbolic cells with a SYMBOLIC index (no loop is unrolled, nothing is evaluated); the forward loop is recognised as Thomas '
+        'elimination with one multiplier per row, the backward loop as its back substitution over a covering range, reads stay inside '
+        'the ranges their arrays are defined on and follow the loop direction; then polynomial normalisation decides: interpolation at '
+        'both ends of every piece (SP.c0), continuity of the second derivative (SP.c2), that the tridiagonal row solved at knot i is '
+        'proportional to the first-derivative jump at knot i (SP.c1), zero second derivative at both ends (SP.natural), exactness on '
+        'straight lines (SP.lines), and that the evaluator reads the table as a + b t + c t^2 + d t^3 of the piece whose own range '
+        'guard holds (SP.eval, SP.lookup). (AR) trapezoid area: each term is the exact integral of its segment and the area is a plain '
+        'sum over all consecutive segments (hence additive). NOT decided: floating-point rounding (conditioning at extreme spacings), '
+        'behaviour for non-increasing abscissae, everything about the simplex minimiser.')
     chk.assumptions = ['seeds: column 0 of xy/interp_xy and the abscissa vector are X, column 1 and the predicted vector are Y',
-                       'a numeric literal is dimensionless when added/compared, imposes nothing when stored or used as a factor; 0 is polymorphic']
+                       'a numeric literal is dimensionless when added/compared, imposes nothing when stored or used as a factor; 0 is polymorphic',
+                       'trusted mathematics: the Thomas algorithm solves the tridiagonal system whose rows it eliminates; a polynomial identity '
+                       'in a symbolic index holds at every index; real (not floating-point) arithmetic']
     prog = load_program(chk, ['interpolate.c', 'numeric.c'])
     an = dims.run(chk, prog)
+    from . import spline
+    spline.run(chk, prog)
+    for r_, fl in (('SP.sweep', 2), ('SP.backsub', 2), ('SP.order', 5), ('SP.defined', 15), ('SP.natural', 4), ('SP.c0', 2), ('SP.c2', 1),
+                   ('SP.c1', 1), ('SP.lines', 2), ('SP.eval', 3), ('SP.lookup', 1), ('AR.trapezoid', 1), ('AR.sum', 1)):
+        chk.floor(r_, fl)
     if an.n_constraints < 60:
         chk.broke('only %d dimension constraints generated, floor 60' % an.n_constraints)
     inf = chk.extra.get('inferred_dimensions', {})
